@@ -1,6 +1,5 @@
 import DracoModel.EbPredict
-import DracoModel.Wrap
-import DracoModel.Octahedron
+import DracoModel.SeqEncoder
 /-
   Mesh prediction scheme ENCODERS of bitstream 2.2:
     prediction_schemes/prediction_scheme_delta_encoder.h
@@ -61,27 +60,35 @@ def wrapInitOf (data : Array Int) : Option WrapT :=
   | none => none
   | some (mn, mx) => Wrap.init mn mx
 
-/-- `PredictionSchemeDeltaEncoder::ComputeCorrectionValues` (wrap transform) -/
-def deltaEncodeWrap (wt : WrapT) (nc : Nat) (data : Array Int) : R (Array Int) := do
-  if nc == 0 then return data
-  let n := data.size / nc
-  let mut out := Array.replicate data.size (0 : Int)
+/-- the loop shared by the delta and the parallelogram encoder: the entries `n-1, …, 1` from the back
+    (`corrAt p out` writes the corrections of entry `p`), then entry 0 -/
+def encodeBackward (n size : Nat) (corrAt : Nat → Array Int → R (Array Int)) : R (Array Int) := do
+  let mut out := Array.replicate size (0 : Int)
   for k in [0:n - 1] do
-    let p := n - 1 - k
-    out ← corrWrap wt nc (p * nc) (fun c => rdI "in_data" data ((p - 1) * nc + c)) data out
-  corrWrap wt nc 0 (fun _ => pure 0) data out
+    out ← corrAt (n - 1 - k) out
+  corrAt 0 out
+
+/-- the prediction of entry `p` of the delta coder: the previous entry, zero for the first -/
+def deltaPred (nc : Nat) (data : Array Int) (p c : Nat) : R Int :=
+  if p == 0 then pure 0 else rdI "in_data" data ((p - 1) * nc + c)
+
+/-- `PredictionSchemeDeltaEncoder::ComputeCorrectionValues` (wrap transform) -/
+def deltaEncodeWrap (wt : WrapT) (nc : Nat) (data : Array Int) : R (Array Int) :=
+  if nc == 0 then pure data else
+  encodeBackward (data.size / nc) data.size fun p out => corrWrap wt nc (p * nc) (deltaPred nc data p) data out
+
+/-- the corrections of entry `p` of the parallelogram encoder -/
+def parallelogramCorrAt (md : MeshData) (wt : WrapT) (nc : Nat) (data : Array Int) (p : Nat) (out : Array Int) :
+    R (Array Int) := do
+  if p == 0 then corrWrap wt nc 0 (fun _ => pure 0) data out else
+  let corner := md.d2c[p]!
+  match ← parallelogramPredictionE md p corner data nc with
+  | none => corrWrap wt nc (p * nc) (fun c => rdI "in_data" data ((p - 1) * nc + c)) data out
+  | some pv => corrWrap wt nc (p * nc) (fun c => rdI "pred_vals" pv c) data out
 
 /-- `MeshPredictionSchemeParallelogramEncoder::ComputeCorrectionValues` -/
-def parallelogramEncode (md : MeshData) (wt : WrapT) (nc : Nat) (data : Array Int) : R (Array Int) := do
-  let mut out := Array.replicate data.size (0 : Int)
-  let n := md.d2c.size
-  for k in [0:n - 1] do
-    let p := n - 1 - k
-    let corner := md.d2c[p]!
-    match ← parallelogramPredictionE md p corner data nc with
-    | none => out ← corrWrap wt nc (p * nc) (fun c => rdI "in_data" data ((p - 1) * nc + c)) data out
-    | some pv => out ← corrWrap wt nc (p * nc) (fun c => rdI "pred_vals" pv c) data out
-  corrWrap wt nc 0 (fun _ => pure 0) data out
+def parallelogramEncode (md : MeshData) (wt : WrapT) (nc : Nat) (data : Array Int) : R (Array Int) :=
+  encodeBackward md.d2c.size data.size (parallelogramCorrAt md wt nc data)
 
 /-- `MeshPredictionSchemeConstrainedMultiParallelogramEncoder::ComputeCorrectionValues`.
     `crease[i]` = the crease flags of context `i` in DECODING order (entry 1 first) — the choice
@@ -314,18 +321,8 @@ def geometricNormalEncode (md : MeshData) (ps : PosSource) (ot : OctaT) (data : 
   pure (out, flips)
 
 /-- `PredictionSchemeDeltaEncoder::ComputeCorrectionValues` with the canonicalized octahedron
-    transform on entries of two values -/
-def deltaEncodeOcta (ot : OctaT) (data : Array Int) : R (Array Int) := do
-  let n := data.size / 2
-  let mut out := Array.replicate data.size (0 : Int)
-  for p in [0:n] do
-    let o0 ← rdI "in_data" data (2 * p)
-    let o1 ← rdI "in_data" data (2 * p + 1)
-    let pr : Int × Int ← if p == 0 then pure (0, 0) else do
-      pure (← rdI "in_data" data (2 * p - 2), ← rdI "in_data" data (2 * p - 1))
-    let c := Octa.encCorr ot (o0, o1) pr
-    out ← wrI "out_corr" out (2 * p) c.1
-    out ← wrI "out_corr" out (2 * p + 1) c.2
-  pure out
+    transform on entries of two values: the function of the sequential encoder model -/
+def deltaEncodeOcta (ot : OctaT) (data : Array Int) : Array Int :=
+  (SeqEnc.deltaEncode (SeqEnc.octaEnc ot) [0, 0] (SeqEnc.entriesOf 2 data.size data.toList)).flatten.toArray
 
 end Draco.EbEnc
